@@ -131,37 +131,67 @@ Proof. vm_compute. reflexivity. Qed.
     [Match p s = Ok b] with [b = true <-> Glob p s] when p is well formed (GlobSpec.v: the
     grammar and the declarative relation), and [Match p s = Bad] exactly when p is malformed.
 
-    Proved here (PARTIAL):
-    - chunk level, every chunk and every name (any bytes): on a chunk the grammar derives
-      without '*', [matchChunk] (classes, ranges, negation, escapes, '?', literals, the
-      [failed] flag, utf8 decoding) returns exactly the deterministic prefix matcher [PM],
-      and [PM] decides the declarative relation [Matches];
-    - whole patterns without a '*' byte: for every well-formed such pattern and EVERY name
-      [Match] answers [Ok b] with [b = true <-> Matches ts s], in particular never Bad, Fuel
-      or Panic.
-    - the ErrBadPattern half of the full statement is refuted as stated: a malformed pattern
-      whose bad chunk is not reached answers (false, nil) (C19_match_bad_exact_refuted).
-    Missing: the same equivalence through scanChunk and the greedy star loop of [Match]
-    (needs: scan's [inrange] flag coincides with the class structure of well-formed patterns,
-    rune-decoding is prefix-stable, leftmost-match suffices on plain names), and "Match = Ok
-    true only for well-formed patterns".  For names that are not plain (multi-byte runes,
-    '/') the equivalence is FALSE of Go's Match (Examples below, reproduced on the real code,
-    known findings C19-stdlib-...).  The star part is covered by the exhaustive tie only: all
-    patterns of <= 4 (thorough 5) symbols over {a,b,*,?,[,],-,\,^} x all names <= 3, model =
-    Go byte for byte, and Go compared with an independent reference matcher in the oracle. *)
-From Atlas Require Import Excl.GlobSpec Excl.GlobProofs.
+    Proved:
+    - [C19_match_spec]: for every WELL-FORMED pattern, through scanChunk, matchChunk and the
+      greedy star loop: (1) [Match] answers [Ok _] for EVERY name (any bytes) -- never
+      ErrBadPattern, out-of-fuel or panic; (2) for every PLAIN name (ASCII, no '/') the answer
+      is the declarative relation: [b = true <-> Glob p s].
+    - [C19_match_chunk]: chunk level for every name (any bytes): on a chunk the grammar derives
+      without '*', [matchChunk] = the deterministic prefix matcher [PM], which decides [Matches].
+    - [C19_match_spec_nonplain_refuted]: for names that are not plain the equivalence is FALSE of
+      Go's Match (a multi-byte rune after '*' here; '/' matched by a class is the other case:
+      Example C19_match_separator_quirk), reproduced on the real code by the tie.
+    - ErrBadPattern: [C19_match_bad_partial]: Bad only on malformed patterns (one direction);
+      [C19_match_bad_exact_refuted]: not on every malformed pattern -- Go reports a bad chunk
+      only when the scan reaches it.
+    Missing (PARTIAL): "Match = Ok true only for well-formed patterns" and the exact
+    reached-chunk characterisation of Bad (needs a simulation between scan's [inrange] flag and
+    matchChunk's class parser on MALFORMED input); covered by the exhaustive tie (all patterns
+    <= 4/5 symbols over {a,b,*,?,[,],-,\,^} x all names <= 3, model = Go, Go vs reference). *)
+From Atlas Require Import Excl.GlobSpec Excl.GlobProofs Excl.GlobStar.
 
-Theorem C19_match_spec_partial :
-  (forall chunk items s, Parses chunk items -> no_star items ->
-     matchChunk chunk s = Ok (PM items s) /\ (PM items s = Some [] <-> Matches items s))
-  /\ (forall p ts s, Parses p ts -> starless p ->
-        exists b, Match p s = Ok b /\ (b = true <-> Matches ts s)).
+Theorem C19_match_spec :
+  forall p, WellFormed p ->
+    (forall s, exists b, Match p s = Ok b)
+    /\ (forall s, plain s -> exists b, Match p s = Ok b /\ (b = true <-> Glob p s)).
 Proof.
-  split.
-  - intros chunk items s HP Hn. split; [exact (matchChunk_parses chunk items s HP Hn)|exact (PM_Matches items Hn s)].
-  - intros p ts s HP Hs. exact (Match_starless p ts s HP Hs).
+  intros p Hw. split.
+  - intros s. exact (Match_total p s Hw).
+  - intros s Hp. exact (Match_Glob p s Hw Hp).
 Qed.
-Print Assumptions C19_match_spec_partial.
+Print Assumptions C19_match_spec.
+
+Theorem C19_match_chunk :
+  forall chunk items s, Parses chunk items -> no_star items ->
+     matchChunk chunk s = Ok (PM items s) /\ (PM items s = Some [] <-> Matches items s).
+Proof.
+  intros chunk items s HP Hn. split; [exact (matchChunk_parses chunk items s HP Hn)|exact (PM_Matches items Hn s)].
+Qed.
+Print Assumptions C19_match_chunk.
+
+Theorem C19_match_bad_partial : forall p s, Match p s = Bad -> ~ WellFormed p.
+Proof. exact Match_bad_malformed. Qed.
+Print Assumptions C19_match_bad_partial.
+
+(** the equivalence does not extend to every name: Match("*?*?x", "\u20acx") = false, although
+    under the declarative relation (a star may take any bytes but '/') * = E2, ? = 82, * = "",
+    ? = AC, x = x is a match: the first "?" greedily takes the whole rune at offset 0 and the
+    star loop never comes back *)
+Theorem C19_match_spec_nonplain_refuted :
+  exists p s, WellFormed p /\ Match p s = Ok false /\ Glob p s.
+Proof.
+  exists [42;63;42;63;120]%N, [226;130;172;120]%N.
+  assert (HP : Parses [42;63;42;63;120]%N [TStar; TAny; TStar; TAny; TLit 120%N]).
+  { apply P_star. apply P_any. apply P_star. apply P_any. apply P_lit; [reflexivity|apply P_nil]. }
+  split; [eexists; exact HP|]. split; [vm_compute; reflexivity|].
+  exists [TStar; TAny; TStar; TAny; TLit 120%N]. split; [exact HP|].
+  apply (M_star _ [226]%N [130;172;120]%N); [repeat constructor; discriminate|].
+  eapply (M_any _ 130%N [172;120]%N); [discriminate|vm_compute; reflexivity|]. cbn [skipn].
+  apply (M_star _ [] [172;120]%N); [constructor|].
+  eapply (M_any _ 172%N [120]%N); [discriminate|vm_compute; reflexivity|]. cbn [skipn].
+  apply M_lit. apply M_nil.
+Qed.
+Print Assumptions C19_match_spec_nonplain_refuted.
 
 Theorem C19_match_bad_exact_refuted :
   exists p s, ~ WellFormed p /\ Match p s = Ok false.
